@@ -38,6 +38,11 @@ func c18Direct(c *Case) *Result {
 		}
 		return res
 	}
+	defer func() {
+		if r := recover(); r != nil && res.Viol == nil {
+			res.Viol = &Violation{Prop: "C18", Class: "panic", Msg: fmt.Sprintf("panic: %v", r)}
+		}
+	}()
 	rng := simsched.NewRand(simsched.Mix(c.Seed, 0xc18))
 	dir, err := os.MkdirTemp("", "verif-c18-")
 	if err != nil {
@@ -135,13 +140,14 @@ func c18Direct(c *Case) *Result {
 			}
 			var err error
 			if guard("Close", func() { err = handles[h].Close() }) {
+				handles[h] = nil
 				break
 			}
+			handles[h] = nil // a File must not be used after Close, whatever Close returned
 			if err != nil {
 				fail("close-error", "File.Close failed: %v", err)
 				break
 			}
-			handles[h] = nil
 			holder = -1
 			res.Probes["close"]++
 			// after Close the path can be opened again immediately
@@ -340,7 +346,10 @@ func c18Direct(c *Case) *Result {
 	}
 	for _, f := range handles {
 		if f != nil {
-			f.Close()
+			func() {
+				defer func() { recover() }()
+				f.Close()
+			}()
 		}
 	}
 	c.Tasks = map[string][]Op{"main": rec}
